@@ -237,21 +237,24 @@ Theorem C15_limit_bytes :
 Proof. exact limit_bytes. Qed.
 Print Assumptions C15_limit_bytes.
 
-(* The digest probe of FetchReference (manifest GET without Docker-Content-Digest, the index of
-   the referrers tag schema): rejects exactly the bodies over the limit and never hands out a
-   truncated one, but -- known finding over-read-digest-probe -- reads limit+1 bytes of them. *)
-Theorem C15_digest_probe_partial :
-  forall limit body,
-    (snd (digest_probe limit body) = true <-> (eff_limit limit < Z.of_nat (length body))%Z) /\
-    (snd (digest_probe limit body) = false -> fst (digest_probe limit body) = body) /\
-    (Z.of_nat (length (fst (digest_probe limit body))) <= eff_limit limit + 1)%Z.
+(* The digest probe of FetchReference (manifest GET without Docker-Content-Digest, e.g. the index
+   of the referrers tag schema; code after 4290d32): never more than MaxMetadataBytes is read, a
+   body over the limit is refused with nothing read, a body that is not refused is read completely *)
+Theorem C15_digest_probe :
+  forall limit clen body,
+    (Z.of_nat (length (fst (digest_probe limit clen body))) <= eff_limit limit)%Z /\
+    (clen = Z.of_nat (length body) ->
+       (snd (digest_probe limit clen body) = true <-> (eff_limit limit < Z.of_nat (length body))%Z) /\
+       (snd (digest_probe limit clen body) = true -> fst (digest_probe limit clen body) = []) /\
+       (snd (digest_probe limit clen body) = false -> fst (digest_probe limit clen body) = body)).
 Proof. exact digest_probe_spec. Qed.
-Print Assumptions C15_digest_probe_partial.
+Print Assumptions C15_digest_probe.
 
-Theorem C15_digest_probe_over_read_refuted :
-  exists limit body, (eff_limit limit < Z.of_nat (length (fst (digest_probe limit body))))%Z.
-Proof. exact digest_probe_refuted. Qed.
-Print Assumptions C15_digest_probe_over_read_refuted.
+(* the first version of that fix (digest_probe_v1: a reader of limit+1 bytes) over-read by one *)
+Theorem C15_digest_probe_v1_over_read_refuted :
+  exists limit body, (eff_limit limit < Z.of_nat (length (fst (digest_probe_v1 limit body))))%Z.
+Proof. exact digest_probe_v1_refuted. Qed.
+Print Assumptions C15_digest_probe_v1_over_read_refuted.
 
 (* limitSize (referrers tag schema path) rejects exactly the descriptors larger than the limit *)
 Theorem C15_limit_size :
